@@ -92,14 +92,14 @@ PLANS = {
                   + ([] if tier == "quick" else [
                       main_stage(60, 300, tier, build="asan", name="asan", death_is_violation=True),
                       dict(main_stage(60, 900, tier, build="miri", name="miri"), shards=16)]),
-        "require": ["lookups_with_matches", "exact_lookups", "trie_accesses_seen_by_hook", "word_id_table_accesses_seen_by_hook", "huge_dictionary_keys_checked",
+        "require": ["stacks_with_version_1_user_dictionaries", "worlds_with_a_key_of_exactly_127_entries", "lookups_with_matches", "exact_lookups", "trie_accesses_seen_by_hook", "word_id_table_accesses_seen_by_hook", "huge_dictionary_keys_checked",
                     "valgrind.lookups_with_matches", "pylookup.py_lookups", "lookups_beyond_65535_bytes", "compilations_from_two_files_compared", "stacks_loaded_from_files"],
         "rule": "seeded dictionary stacks (system + 0..14 user layers; keys sharing prefixes, prefix chains, 2-127 homographs, astral / "
                 "single-byte keys, non-indexed rows, bulk lexicons of 100-4000 keys, thorough: 20k-70k keys so word-id-table offsets cross "
                 "255 and 65535; loaded aligned and from an odd address) x texts x EVERY byte offset (also inside characters): the multiset "
                 "of (dictionary, word number, end) from LexiconSet::lookup is compared with an exact-match scan of the source CSV keys; "
                 "MorphemeList::lookup(q) with rows whose key == q; hook H3 must record no out-of-range trie / table access. "
-                "distinct_nontrivial = distinct (world,text,offset) with at least one expected match. Keys with 128 / 255 / 256 / 257 / 300 entries (over the format limit of 127: compiler must reject, or lookup must return all); one world per quick run with ~300,000 keys, i.e. a double array of >2^20 units (unit count read from the binary image), every key looked up.. Texts with a NUL strictly inside an occurrence of a key",
+                "distinct_nontrivial = distinct (world,text,offset) with at least one expected match. Keys with 128 / 255 / 256 / 257 / 300 entries (over the format limit of 127: compiler must reject, or lookup must return all); one world per quick run with ~300,000 keys, i.e. a double array of >2^20 units (unit count read from the binary image), every key looked up.. Texts with a NUL strictly inside an occurrence of a key Homograph groups of 126 / 127 / 128 entries are generated with every entry indexed (127 is the most the format holds); every fourth stack has user lexicons re-encoded in the first user-dictionary layout.",
         "assumptions": COMMON_ASSUMPTIONS,
     },
     "C05": lambda tier: {
@@ -152,7 +152,7 @@ PLANS = {
     "C07": lambda tier: {
         "level": "exploration",
         "stages": [main_stage(60, 300, tier)],
-        "require": ["scalar_values_checked", "default_rewrites_checked", "fast_vs_general_path_pairs", "tables_with_prefix_related_keys",
+        "require": ["tables_with_kanji_of_other_byte_widths", "scalar_values_checked", "default_rewrites_checked", "fast_vs_general_path_pairs", "tables_with_prefix_related_keys",
                     "prolonged_rewrites_checked", "yomigana_deletions", "full_stack_normalisations_checked"],
         "rule": "(a) every Unicode scalar value alone (1,112,064 inputs, exhaustive; split over the shards) through DefaultInputTextPlugin with "
                 "the shipped rewrite.def (thorough: also an empty and an ignore-only table) against the reference nfkc(lowercase(c)) / exempt / "
@@ -162,7 +162,7 @@ PLANS = {
                 "reference; relational check: the rewrite of x alone equals the rewrite of x inside a text that forces the general code path; "
                 "(c) random prolonged-sound-mark sets / replacement symbols and yomigana bracket sets / max lengths against span-level "
                 "references; (d) the whole stack through do_tokenize. distinct_nontrivial = distinct (table/settings,text) that were actually "
-                "rewritten and matched the reference",
+                "rewritten and matched the reference Every third world files ideographs outside the basic plane (4 bytes) and some 2-byte letters under KANJI, and the yomigana texts contain them.",
         "assumptions": COMMON_ASSUMPTIONS + ["NFKC and case tables of unicode-normalization / std are the trusted base",
                                              "character classes for the yomigana reference come from CharacterCategory (checked by C17)"],
     },
@@ -181,7 +181,7 @@ PLANS = {
                 "small window 1..len} x {with, without dictionary checker}; oracles P1 partition + bounded iteration, P2 terminator at the "
                 "end of every non-last sentence, P3 untyped bracket level 0 at the break, P4 no break inside/at the end of a multi-character "
                 "dictionary word containing the terminator, P5 conservative converse (missed break) judged only when the window saw the "
-                "terminator. distinct_nontrivial = distinct (text,limit,checker) split into >=2 sentences. Every second lexicon is layered: words moved to 1-3 user dictionaries plus user words that extend a system word across a terminator.",
+                "terminator. distinct_nontrivial = distinct (text,limit,checker) split into >=2 sentences. Every second lexicon is layered: words moved to 1-3 user dictionaries plus user words that extend a system word across a terminator. Texts also contain quotation marks and angle brackets that are not among the statement's bracket pairs.",
         "assumptions": COMMON_ASSUMPTIONS + ["P5 demands a break only where every veto of the statement is clearly absent (DESIGN.md 6/C16)",
                                              "known findings D12 (window without boundary) and D13 (back-track limit) only through their probes; "
                                              "small-window / long-text cases that fall into the D12 region are counted, not judged"],
@@ -189,7 +189,7 @@ PLANS = {
     "C15": lambda tier: {
         "level": "exploration",
         "stages": [main_stage(40, 300, tier)],
-        "require": ["wellformed_numerals_checked", "shape_plain", "shape_plain+separators", "shape_plain+fraction", "shape_units", "bad_separator_groupings_checked",
+        "require": ["worlds_with_numeral_entries_that_declare_units", "wellformed_numerals_checked", "shape_plain", "shape_plain+separators", "shape_plain+fraction", "shape_units", "bad_separator_groupings_checked",
                     "shape_units+fraction", "mutated_numerals_checked", "joined_tokens_evaluated", "probe_scenarios"],
         "rule": "numerals generated FROM A VALUE: plain digit strings of 1-60 Arabic / kanji digits with optional thousands separators and "
                 "fraction (leading zeros kept), and unit numerals with up to four 10^4 groups (兆 億 万 ones; groups written with 千百十 with "
@@ -199,7 +199,7 @@ PLANS = {
                 "covering the numeral whose normalized_form is the expected rendering. Mutated (1 in 4): every joined token is re-evaluated "
                 "by an independent evaluator: well-formed -> value must match, clearly malformed (separator groups, dangling / adjacent "
                 "points, small units out of order) -> must not exist, unspecified shapes counted. distinct_nontrivial = distinct "
-                "well-formed numerals that were joined with the right value. Runs of digits and separators only with a bad grouping (own generator): no piece may be joined across a separator.. A point directly followed by a unit (\"8.万5\") counts as a dangling point",
+                "well-formed numerals that were joined with the right value. Runs of digits and separators only with a bad grouping (own generator): no piece may be joined across a separator.. A point directly followed by a unit (\"8.万5\") counts as a dangling point Every third world has cheap multi-character numeral entries that declare A/B units (二十 = 二/十 ...): a joined numeral beginning with one of them is one token in every mode.",
         "assumptions": COMMON_ASSUMPTIONS + ["repeated large units (known finding D22) are judged only through the labelled probe",
                                              "a fraction directly after a unit and decimal coefficients of large units are 'unspecified'"],
     },
@@ -214,13 +214,13 @@ PLANS = {
                 "matched on normalised-text positions: every with-plugin token must be one base token unchanged (all observable fields) or "
                 "the union of consecutive base tokens with concatenated dictionary-side surface and the prescribed POS; a single numeral "
                 "token may only have its normalised form / word id rewritten. distinct_nontrivial = distinct (world,mode,text) containing "
-                "a real merge that passed. A lone numeral token whose normalised form is rewritten must receive the value of its own normalised form (independent evaluator of C15).",
+                "a real merge that passed. A lone numeral token whose normalised form is rewritten must receive the value of its own normalised form (independent evaluator of C15). Full-width digit entries with numeral POS (unreadable for the plugin) occur when nothing normalises the input: a lone token whose normalised form is not made of the plugin's numeral characters must stay unchanged.",
         "assumptions": COMMON_ASSUMPTIONS + ["single-token numeral normalisation counts as a degenerate merge (the repository's own tests require 一 -> 1)"],
     },
     "C13": lambda tier: {
         "level": "exploration",
         "stages": [main_stage(40, 300, tier)],
-        "require": ["definition_sets_with_a_class_table_of_the_provider", "positions_checked", "oov_candidates_expected", "run_lengths_checked", "texts_with_runs_longer_than_one", "oov_morphemes_checked"],
+        "require": ["definition_sets_whose_last_provider_is_not_the_simple_one", "definition_sets_with_a_class_table_of_the_provider", "positions_checked", "oov_candidates_expected", "run_lengths_checked", "texts_with_runs_longer_than_one", "oov_morphemes_checked"],
         "rule": "seeded definition sets: char.def giving each of 21 alphabet characters (letters, digits, kana, kanji, 々, emoji + skin-tone "
                 "modifier, combining mark, Greek, Cyrillic, space) 1-3 classes, ALL for modifiers / combining marks, NOOOVBOW / NOOOVBOW2, "
                 "overlapping ranges; category table with random invoke/group/length per class; unk.def with 0-3 lines per class; provider "
@@ -230,7 +230,7 @@ PLANS = {
                 "(left-to-right segmentation, two readings of 'class in common'); at EVERY reachable lattice position (hook H4) the set of "
                 "OOV nodes (begin,end,left,right,cost,POS) vs the model of the provider chain incl. the created-words bitmap and fallback "
                 "re-invocation; OOV morphemes report is_oov, dictionary -1, a candidate POS and the normalised slice as forms. "
-                "distinct_nontrivial = distinct (definitions,text) that passed all comparisons In every other definition set the MeCab provider is configured with a class table of its own (charDef) while the tokenizer's char.def carries the same ranges with other invoke/group/length columns.",
+                "distinct_nontrivial = distinct (definitions,text) that passed all comparisons In every other definition set the MeCab provider is configured with a class table of its own (charDef) while the tokenizer's char.def carries the same ranges with other invoke/group/length columns. One stack in five ends with the MeCab or regex provider (no simple provider): the last provider is an ordinary provider at every position and the one asked again when nothing exists.",
         "assumptions": COMMON_ASSUMPTIONS + ["dictionary candidates at a position are taken from the observed lattice (checked by C02/C04)",
                                              "the regex crate is the trusted base for the regex provider's reference",
                                              "duplicated candidates are ignored (the property speaks of which candidates exist)"],
@@ -241,13 +241,13 @@ PLANS = {
                    # field requests as the Python binding spells them (fields={...}): split results and per-call overrides
                    dict(main_stage(60, 240, tier, name="pyfields", shards=8), needs=["py", "cli"], extra=["--prop-alias", "C19", "--scale", "2"],
                         kinds_re="^python_(split|mode_override|pretokenizer_fields)$")],
-        "require": ["words_swept_over_all_subsets", "tokenizations_compared", "tokenizations_where_only_partition_is_promised", "pyfields.py_field_split_checks"],
+        "require": ["splits_of_looked_up_words_compared", "words_swept_over_all_subsets", "tokenizations_compared", "tokenizations_where_only_partition_is_promised", "pyfields.py_field_split_checks"],
         "rule": "seeded stacks (system + 0-3 user dictionaries, with/without synonym ids, splits, dictionary-form references); for EVERY word "
                 "of every layer and EVERY one of the 1,024 field subsets S (exhaustive per word): get_word_info_subset(id, S.normalize()) "
                 "read through the public accessors must agree with the full load on every field in S; plus tokenizations with "
                 "set_subset(S)/set_mode(m) in both orders in modes A/B/C: partition always, boundaries + word ids + requested fields equal to "
                 "the full-field analysis when no path-rewrite plugin is configured or S contains surface, POS and normalised form. "
-                "distinct_nontrivial = distinct words whose 1,024 subsets all agreed",
+                "distinct_nontrivial = distinct words whose 1,024 subsets all agreed Compounds are looked up with all fields into a list that last held a narrow-request analysis and the words found are split: the parts must carry the same fields as on a new list.",
         "assumptions": COMMON_ASSUMPTIONS + ["the closure InfoSubset::normalize() is applied before the low-level call (as the tokenizer does)"],
     },
     "C10": lambda tier: {
@@ -257,14 +257,14 @@ PLANS = {
                    # C19's driver runs here too; only its history kinds are judged under this property
                    dict(main_stage(60, 240, tier, name="pyhist", shards=8), needs=["py", "cli"], extra=["--prop-alias", "C19", "--scale", "2"],
                         kinds_re="^python_(history|mode_override)$")],
-        "require": ["truncated_images_used", "analyses_failed_after_the_path_was_found", "probes_compared_after_late_failures", "history_operations", "probes_compared", "history_analyses_rejected", "histories_completed", "pyhist.py_history_probes", "pyhist.py_override_checks"],
+        "require": ["worlds_with_regex_debug_errors_possible", "history_analyses_failed_by_a_provider_error", "probes_compared_after_input_plugin_failures", "analyses_refused_by_an_input_text_plugin_with_edits_pending", "truncated_images_used", "analyses_failed_after_the_path_was_found", "probes_compared_after_late_failures", "history_operations", "probes_compared", "history_analyses_rejected", "histories_completed", "pyhist.py_history_probes", "pyhist.py_override_checks"],
         "rule": "seeded worlds (random plugin stacks incl. MeCab / regex OOV, path-rewrite plugins in 1 of 3) x histories of 5-40 operations on "
                 "ONE long-lived StatefulTokenizer + reused MorphemeList + reused split list: set_mode, set_subset (random of the 1,024 subsets; "
                 "restricted to supersets of surface/POS/normalised form when path-rewrite plugins are configured), analyse(text: empty, "
                 ">49,149 bytes, NFKC-expanding beyond 65,535 bytes, 5-85 repeats of one character, long and short key texts), split_into. "
                 "After EVERY operation a probe text is analysed by the long-lived pair and by a freshly created tokenizer + list with the same "
                 "mode and field request; boundaries, word ids and every requested field (through the accessors) must be equal, and a failed "
-                "analysis must leave the tokenizer usable. distinct_nontrivial = distinct histories that completed with all probes equal. Every second history also compares each probe with StatelessTokenizer::tokenize (a new analyser per call, into_morpheme_list). Every other world is also loaded from a system image that lost its last bytes: texts whose best path holds the unreadable last word fail AFTER the lattice was built; histories mixing them with ordinary texts are probed against a fresh tokenizer on the same image after every operation.",
+                "analysis must leave the tokenizer usable. distinct_nontrivial = distinct histories that completed with all probes equal. Every second history also compares each probe with StatelessTokenizer::tokenize (a new analyser per call, into_morpheme_list). Every other world is also loaded from a system image that lost its last bytes: texts whose best path holds the unreadable last word fail AFTER the lattice was built; histories mixing them with ordinary texts are probed against a fresh tokenizer on the same image after every operation. Every sixth world runs the regex provider with its debug checks and a pattern with an unanchored alternative, with texts of 64+ letters so that an analysis fails at a position where another provider has already created a long word and a later text has a regex word of that length. Every fourth world is also driven through a dictionary view whose input-text plugin queues edits and then fails on a trigger character.",
         "assumptions": COMMON_ASSUMPTIONS + ["the fresh tokenizer of the same tree is the executable model"],
     },
     "C09": lambda tier: {
@@ -290,7 +290,7 @@ PLANS = {
                    # dictionary numbers, POS and references as the Python binding reports them (fields incl. the raw word info, lookup)
                    dict(main_stage(60, 240, tier, name="pyrefs", shards=8), needs=["py", "cli"], extra=["--prop-alias", "C19", "--scale", "2"],
                         kinds_re="^python_(field|lookup|build)$")],
-        "require": ["stacks_with_version_1_user_dictionaries", "rows_checked", "system_rows_compared_with_zero_layer_load", "morphemes_checked", "oov_morphemes_checked", "stacks_loaded_from_files", "morpheme_passes_with_a_field_subset", "stacks_with_version_2_user_dictionaries", "stacks_built_with_ConfigBuilder_user_dict", "pyrefs.py_word_infos_compared",
+        "require": ["stacks_with_a_missing_listed_file_refused", "stacks_listed_with_relative_paths", "stacks_with_version_1_user_dictionaries", "rows_checked", "system_rows_compared_with_zero_layer_load", "morphemes_checked", "oov_morphemes_checked", "stacks_loaded_from_files", "morpheme_passes_with_a_field_subset", "stacks_with_version_2_user_dictionaries", "stacks_built_with_ConfigBuilder_user_dict", "pyrefs.py_word_infos_compared",
                     "fifteenth_dictionary_rejected_with_error", "plugin_registered_pos_2"],
         "rule": "seeded stacks of 0, 1, 2, 3-13, 14 and 15 user dictionaries over a generated system dictionary; each layer compiled the way the "
                 "CLI does (against a plain load of the system dictionary), with POS that exist only in that layer, POS shared between layers "
@@ -299,7 +299,7 @@ PLANS = {
                 "(declared POS strings, references resolved to layer 0 or the own layer and the right row, found by lookup under its own "
                 "dictionary number); every system row compared with a zero-layer load; texts containing each word + plugin-OOV triggers: "
                 "dictionary_id / is_oov / part_of_speech of every morpheme; 15 layers must give an Err (no panic, no acceptance). "
-                "distinct_nontrivial = distinct stacks with >=2 layers (or the 15-layer rejection) that passed. Every second stack of 1-8 layers is also loaded from files through JapaneseDictionary::from_cfg (systemDict / userDict paths) with one user dictionary listed twice in a row: every listed file is a layer of its own (lookup under its number, POS, split references). The morpheme-level pass runs a second time on a tokenizer that requests only part of the fields (POS among them) In a quarter of the stacks every other user lexicon uses system parts of speech only and its image is re-encoded in the first user-dictionary layout (no POS block, other magic number): all row, reference, dictionary-number and morpheme checks apply unchanged.",
+                "distinct_nontrivial = distinct stacks with >=2 layers (or the 15-layer rejection) that passed. Every second stack of 1-8 layers is also loaded from files through JapaneseDictionary::from_cfg (systemDict / userDict paths) with one user dictionary listed twice in a row: every listed file is a layer of its own (lookup under its number, POS, split references). The morpheme-level pass runs a second time on a tokenizer that requests only part of the fields (POS among them) In a quarter of the stacks every other user lexicon uses system parts of speech only and its image is re-encoded in the first user-dictionary layout (no POS block, other magic number): all row, reference, dictionary-number and morpheme checks apply unchanged. File-based stacks are listed with relative names in half of the cases; a list with a file that does not exist must fail to load, or at least keep every later dictionary under its list position.",
         "assumptions": COMMON_ASSUMPTIONS + ["user-dictionary dic_form is '*' (known defect D18 is not part of this property's generator)"],
     },
     "C20": lambda tier: {
@@ -338,7 +338,7 @@ PLANS = {
                 "quotes, 2-300 homographs; totality under a panic hook in a debug-assertion and a release build; inputs that are invalid in a "
                 "way the statement names must be rejected. (c) every accepted dictionary is loaded and texts made of its keys are analysed in "
                 "modes A/B/C under the bounds hooks and the partition oracle. distinct_nontrivial = distinct mutated inputs that were handled "
-                "correctly + dictionaries whose sink offsets were enumerated. Call sequences: documented; error of resolve() ignored; compile() without resolve(); without read_conn(); error of read_conn() ignored; lexicon in two parts with resolve() between them (with and without a second resolve()); a second, smaller read_conn() whose text breaks off - never a panic, and success only with a valid dictionary. The builders behind sudachipy.build_system_dic / build_user_dic and `sudachi build` are run with the output file cut off after L bytes by RLIMIT_FSIZE (L sampled incl. the ends and the 8 KiB buffer boundaries): success with a shorter file is a sink failure reported as success. Descriptions of 0/255/256/257/1000 bytes and multi-byte ones around 256 bytes / characters / UTF-16 units: success must give a loadable dictionary that stores the same description.",
+                "correctly + dictionaries whose sink offsets were enumerated. Call sequences: documented; error of resolve() ignored; compile() without resolve(); without read_conn(); error of read_conn() ignored; lexicon in two parts with resolve() between them (with and without a second resolve()); a second, smaller read_conn() whose text breaks off - never a panic, and success only with a valid dictionary. The builders behind sudachipy.build_system_dic / build_user_dic and `sudachi build` are run with the output file cut off after L bytes by RLIMIT_FSIZE (L sampled incl. the ends and the 8 KiB buffer boundaries): success with a shorter file is a sink failure reported as success. Descriptions of 0/255/256/257/1000 bytes and multi-byte ones around 256 bytes / characters / UTF-16 units: success must give a loadable dictionary that stores the same description. Reference fields also take values of 2^28 and more (up to 2^32, with and without the U prefix), and lexicons whose only inline references stand in the B-unit column of a row with splitting mode B.",
         "assumptions": COMMON_ASSUMPTIONS + ["known findings D9 (split units not covering the key), D18 (user-dictionary dic_form) and D24 (stack overflow "
                                              "for a 32,767-byte key; runs alone in its own process) are exercised only by labelled probes",
                                              "mutations that disturb split references are analysed in mode C only"],
@@ -353,7 +353,7 @@ PLANS = {
         ] + ([] if tier == "quick" else [
             dict(main_stage(60, 1200, tier, build="miri", name="miri", death_is_violation=False), shards=16),
         ]),
-        "require": ["repetitions_with_hundreds_of_compounds", "repetitions", "concurrent_results_compared_with_baseline", "overlapping_operation_pairs_between_threads",
+        "require": ["repetitions_with_debug_tokenizers_in_threads", "debug_tokenizer_results_compared", "repetitions_with_hundreds_of_compounds", "repetitions", "concurrent_results_compared_with_baseline", "overlapping_operation_pairs_between_threads",
                     "tsan.concurrent_results_compared_with_baseline", "tsan.overlapping_operation_pairs_between_threads",
                     "asan.concurrent_results_compared_with_baseline", "pythreads.py_thread_results"],
         "rule": "each repetition: a fresh world with EVERY plugin type (default input text, prolonged marks, yomigana, MeCab + regex + simple OOV, "
@@ -368,7 +368,7 @@ PLANS = {
                 "16 scheduler seeds (data-race detection, 2-3 threads). Python half: 8 threading.Thread workers over tokenizers created from "
                 "ONE Dictionary, 300 analyses each, results vs a sequential pass, interpreter exit status (no race detector applies to "
                 "CPython). Evidence of interleaving: operations are stamped from one global atomic clock; overlapping_operation_pairs counts "
-                "cross-thread overlaps. distinct_nontrivial = distinct thread-order signatures of the operation logs. Thread counts 2, 4, 8, 16, 40 and 72.. Every sixth repetition has 1,500 lemmas + 1,500 inflected words referring to them as dictionary form, and texts made of the inflected words Every third repetition has 400 compounds with declared units and texts made of them, analysed in modes A and B only, so that different compounds are split for the first time by different threads at the same moment and again later.",
+                "cross-thread overlaps. distinct_nontrivial = distinct thread-order signatures of the operation logs. Thread counts 2, 4, 8, 16, 40 and 72.. Every sixth repetition has 1,500 lemmas + 1,500 inflected words referring to them as dictionary form, and texts made of the inflected words Every third repetition has 400 compounds with declared units and texts made of them, analysed in modes A and B only, so that different compounds are split for the first time by different threads at the same moment and again later. Every fourth repetition also runs four threads with debug tokenizers (standard output pointed at /dev/null) next to a control thread with an ordinary tokenizer on the same dictionary: 'threads_blocked' is reported only when the debug threads complete nothing for 20 s while the control thread completes at least 500 analyses in that time (a stalled machine cannot produce that); otherwise their results are compared with single-threaded ones.",
         "assumptions": COMMON_ASSUMPTIONS + ["absence of a TSan / Miri report covers only the schedules and accesses executed",
                                              "Miri runs without the aliasing models (DESIGN.md 2.2)"],
     },
